@@ -3,8 +3,8 @@ import PdshVerif.Pcp.Sink
 /-! Two relational facts about the receiver automaton:
 * replies are only ever appended (`st.out` is a suffix of every later `out`), so an error record,
   once sent, is part of the final reply stream;
-* the receiver without name validation and the receiver with the scp rule run in lock step until the
-  latter rejects a name (`badName`): the repair changes nothing else. -/
+* the receiver without name validation and a receiver with a name rule (slash-or-dotdot, or scp) run in
+  lock step until the latter rejects a name (`badName`): the repair changes nothing else. -/
 namespace PdshVerif.Pcp
 
 variable {o : Opts} {st : St}
@@ -49,12 +49,11 @@ theorem out_enter_of {l : List Reply} {st' : St} (targ : Str) (h : l <:+ st'.out
   · exact h.trans (List.suffix_cons _ _)
 
 theorem out_afterData_of {l : List Reply} {st' : St} (p : Path) (np : Str) (size : Int) (count : Nat)
-    (pr wr : Str) (h : l <:+ st'.out) : l <:+ (afterData st' p np size count pr wr).out := by
+    (pr wr : Str) (h : l <:+ st'.out) : l <:+ (afterData o st' p np size count pr wr).out := by
   unfold afterData
   simp only
-  split
-  · exact h.trans (List.suffix_cons _ _)
-  · exact h
+  repeat' split
+  all_goals first | exact h | exact h.trans (List.suffix_cons _ _)
 
 theorem out_handleFile_of {l : List Reply} {st' : St} (np : Str) (mode : Nat) (size : Int)
     (h : l <:+ st'.out) : l <:+ (handleFile o st' np mode size).out := by
@@ -100,7 +99,7 @@ theorem out_handleRecord_of {l : List Reply} {st' : St} (line : Str) (ch : UInt8
         · apply out_handleDir_of; exact h
         · apply out_handleFile_of; exact h
 
-theorem out_afterResponse_of {l : List Reply} {st' : St} (np : Str) (d : Bool) (h : l <:+ st'.out) :
+theorem out_afterResponse_of {l : List Reply} {st' : St} (np : Str) (d : Wrerr) (h : l <:+ st'.out) :
     l <:+ (afterResponse o st' np d).out := by
   unfold afterResponse
   split
@@ -112,8 +111,9 @@ theorem out_afterResponse_of {l : List Reply} {st' : St} (np : Str) (d : Bool) (
         apply out_doUtimes_of; exact h
       · apply out_doUtimes_of; exact h
     · split
-      · exact h
       · exact h.trans (List.suffix_cons _ _)
+      · exact h.trans (List.suffix_cons _ _)
+      · exact h
 
 theorem out_dataEOF_of {l : List Reply} {st' : St} (p : Path) (wr : Str) (h : l <:+ st'.out) :
     l <:+ (dataEOF o st' p wr).out := by
@@ -173,7 +173,7 @@ theorem out_final (s : Str) : st.out <:+ (finish o (s.foldl (step o) st)).out :=
 /-! ## the two receiver variants -/
 
 /-- the same receiver without the name validation -/
-def Opts.unchanged (o : Opts) : Opts := { o with repaired := false }
+def Opts.unchanged (o : Opts) : Opts := { o with rule := .none }
 
 def badNameReply : Reply := .err (.screwup .badName)
 
@@ -191,9 +191,9 @@ theorem handleRecord_variant (line : Str) (ch : UInt8) :
     · exact Or.inl rfl
     · exact Or.inl rfl
     · rename_i isDir mode size name hcl
-      by_cases hn : nameOk o.repaired name = true
+      by_cases hn : nameOk o.rule name = true
       · left
-        have h1 : nameOk o.unchanged.repaired name = true := by simp [Opts.unchanged, nameOk]
+        have h1 : nameOk o.unchanged.rule name = true := by simp [Opts.unchanged, nameOk]
         simp only [hn, h1, Bool.not_true, Bool.false_eq_true, ↓reduceIte]
         rfl
       · right
